@@ -3,7 +3,8 @@ import itertools
 from fractions import Fraction
 from types import SimpleNamespace
 
-from extract import w3c_date
+from extract import c18_meta_keys, w3c_date
+from harness import c18_attach as A
 from harness import c18_docs as D
 from harness import c18_gen as G
 from harness import docs
@@ -60,6 +61,42 @@ def adversarial_state(rng):
     depth = rng.randint(0, 4)
     skipped = [rng.choice([0, 1, 2, -1, 5]) for _ in range(depth)]
     return skipped, rng.choice([0, 1, 3, depth + sum(skipped), -2, 7]), rng.choice([0, 1, depth + 1, depth, depth + 2])
+
+
+def stack_tags(levels, init):
+    """Which branches of the skipped-levels machine a run takes (simulated on the abstract state)."""
+    skipped, prev = list(init[0]), init[1]
+    tags = set()
+    for level in levels:
+        if level > prev:
+            skipped.append(level - prev - 1)
+            tags.add('adjust-append-skip' if level - prev - 1 else 'adjust-append-0')
+        else:
+            temp = level
+            popped = 0
+            while temp < prev:
+                if not skipped:
+                    tags.add('pop-on-empty')
+                    return sorted(tags)
+                temp += 1 + skipped.pop()
+                popped += 1
+            tags.add(f'adjust-pop{min(popped, 3)}')
+            if temp > prev:
+                skipped.append(temp - prev - 1)
+                tags.add('adjust-re-add')
+            else:
+                tags.add('adjust-exact')
+        prev = level
+        depth = level - sum(skipped)
+        if depth != len(skipped):
+            tags.add('assert-depth==len')
+            return sorted(tags)
+        if depth < 1:
+            tags.add('assert-depth>=1')
+            return sorted(tags)
+        if depth > init[2] + 0 and depth - 1 >= init[2] + len([1 for _ in ()]):
+            pass
+    return sorted(tags)
 
 
 def level_tags(levels, start):
@@ -163,17 +200,32 @@ def gen_link_pages(rng):
 
 
 def run_real_resolve(pages):
+    import logging
+    from weasyprint.logger import LOGGER
     from weasyprint.pdf.anchors import resolve_links
     stubs = []
     for anchors, links in pages:
         stubs.append(SimpleNamespace(
             anchors={name: (x, y, x + 10, y + 5) for name, x, y in anchors},
             links=[(kind, target, ('rect', ident), ('box', ident)) for kind, target, ident in links]))
-    out = []
-    for page_links, page_anchors in resolve_links(stubs):
-        out.append([[[esc(k), esc(t), r[1]] for k, t, r, b in page_links if r[1] == b[1]],
-                    [[esc(n), G.frac(x), G.frac(y)] for n, x, y in page_anchors]])
-    return sx.dumps(out)
+    errors = []
+
+    class Handler(logging.Handler):
+        def emit(self, record):
+            if record.levelno >= logging.ERROR:
+                errors.append(record.args[0] if record.args else record.getMessage())
+    handler, level = Handler(), LOGGER.level
+    LOGGER.addHandler(handler)
+    LOGGER.setLevel(logging.ERROR)
+    try:
+        out = []
+        for page_links, page_anchors in resolve_links(stubs):
+            out.append([[[esc(k), esc(t), r[1]] for k, t, r, b in page_links if r[1] == b[1]],
+                        [[esc(n), G.frac(x), G.frac(y)] for n, x, y in page_anchors]])
+    finally:
+        LOGGER.removeHandler(handler)
+        LOGGER.setLevel(level)
+    return sx.dumps(out) + ' ' + sx.dumps([esc(e) for e in errors])
 
 
 def resolve_line(pages):
@@ -457,6 +509,85 @@ def judge_gather(spec, impl):
     return None
 
 
+def judge_watt(meta, impl):
+    """write_pdf_attachment: the attachment is embedded under its name (else the basename of its URL, else
+    attachment.bin) with its description and all its bytes; a failing source embeds nothing."""
+    _, table = A.stub_fetcher(meta['urls'])
+    att = A.att_model(meta['case'], table)
+    if impl.startswith('err:') or impl.startswith('bad'):
+        return f'write_pdf_attachment on {meta["case"]}: {impl}'
+    spec, end = sx.loads_line(impl)
+    if att['size'] is None:
+        return None if spec == 'none' and int(end) == meta['start'] else f'unreadable attachment embedded: {impl}'
+    if spec == 'none':
+        return f'readable attachment {meta["case"]} not embedded'
+    want_name = att['name'] or (att['urlBase'] if att['urlBase'] is not None else 'attachment.bin')
+    if spec[2] != esc(want_name) or int(spec[4]) != att['size'] or spec[5] != esc(att['description'] or ''):
+        return (f'attachment {meta["case"]} embedded as name {spec[2]!r}, {spec[4]} bytes, description {spec[5]!r}; '
+                f'expected {want_name!r}, {att["size"]} bytes, {att["description"]!r}')
+    return None
+
+
+def judge_annots(meta, impl):
+    """add_annotations: one /FileAttachment annotation per attachment link whose URL can be read, covering the
+    link rectangle, all links to one URL sharing one embedded file; a failing URL gives no annotation."""
+    _, table = A.stub_fetcher(meta['urls'])
+    if impl.startswith('err:') or impl.startswith('bad'):
+        return f'add_annotations: {impl}'
+    pages, specs, _ = sx.loads_line(impl)
+    readable = lambda t: table.get(t) is not None  # noqa: E731
+    name_of = {int(sp[1]): sp[2] for sp in specs}
+    seen = set()
+    for (scale, height, links), annots in zip(meta['pages'], pages):
+        want = [(t, rect) for k, t, rect in links if k == 'attachment' and readable(t)]
+        if len(annots) != len(want):
+            return f'{len(annots)} annotations for the readable attachment links {[t for t, _ in want]}'
+        for (t, rect), a in zip(want, annots):
+            seen.add(t)
+            expected = (F(rect[0]) * scale, (height - F(rect[1])) * scale, F(rect[2]) * scale, (height - F(rect[3])) * scale)
+            if tuple(F(v) for v in a[3:]) != expected:
+                return f'annotation Rect {a[3:]} for link rectangle {rect}'
+            final = table[t][1]
+            from os.path import basename
+            from urllib.parse import unquote, urlsplit
+            want_name = basename(unquote(urlsplit(final).path)) if urlsplit(final).path else 'attachment.bin'
+            if name_of.get(int(a[2])) != esc(want_name):
+                return f'annotation for {t} points to the file {name_of.get(int(a[2]))!r}, expected {want_name!r}'
+    if len(specs) != len(seen):
+        return f'{len(specs)} files embedded for {len(seen)} distinct readable URLs'
+    return None
+
+
+def judge_metadata(meta, impl):
+    """get_html_metadata / generate_rdf_metadata against the clauses stated on the head elements."""
+    head = [tuple(el) for el in meta['head']]
+    want = D.reference_meta(head)
+    if impl.startswith('err:'):
+        return f'metadata extraction raised {impl}'
+    text = lambda cps: ''.join(chr(int(c)) for c in cps)  # noqa: E731
+    if meta['kind'] == 'meta':
+        title, description, generator, keywords, authors, created, modified, _lang = sx.loads_line(impl)
+        got = {'title': None if title == 'none' else text(title), 'description': None if description == 'none'
+               else text(description), 'generator': None if generator == 'none' else text(generator),
+               'keywords': [text(k) for k in keywords], 'authors': [text(a) for a in authors],
+               'created': None if created == 'none' else text(created),
+               'modified': None if modified == 'none' else text(modified)}
+        if got != want:
+            return f'get_html_metadata gives {got}; the head elements say {want}'
+        return None
+    fields = {f[0]: [text(v) for v in f[1:]] for f in sx.loads_line(impl)[0]}
+    expected = {'dc:title': [want['title']] if want['title'] else None, 'dc:creator': want['authors'] or None,
+                'dc:subject': [want['description']] if want['description'] else None,
+                'pdf:Keywords': [', '.join(want['keywords'])] if want['keywords'] else None,
+                'xmp:CreatorTool': [want['generator']] if want['generator'] else None,
+                'xmp:CreateDate': [want['created']] if want['created'] else None,
+                'xmp:ModifyDate': [want['modified']] if want['modified'] else None}
+    for key, value in expected.items():
+        if fields.get(key) != value:
+            return f'XMP {key} is {fields.get(key)}; the document says {value}'
+    return None
+
+
 def pdf_date_fields(s):
     """Parse a PDF date string D:YYYY[MM[DD[HH[mm[SS]]]]][Z|±HH'mm] -> tuple with defaults, or None."""
     import re
@@ -497,14 +628,17 @@ def judge_date(string, out):
 
 class C18(PropCheck):
     id = 'C18'
-    extractors = (w3c_date.generate,)
-    modules = ('WpModel.Props.C18', 'WpModel.Witness.C18')
+    extractors = (w3c_date.generate, c18_meta_keys.generate)
+    modules = ('WpModel.Props.C18', 'WpModel.Props.C18Pdf', 'WpModel.Props.C18Tree', 'WpModel.Witness.C18')
     trusted_base = (
         'modelled, not verified: make_page_bookmark_tree / Document.make_bookmark_tree (zipper for the aliased '
         'last_by_depth lists), add_outlines (object numbers = len(pdf.objects)), resolve_links, gather_anchors '
         '(rational transform fragment: scale / translate / matrix; no form inputs), rectangle_aabb, Matrix, '
         '_w3c_date_to_pdf and a deterministic matcher for W3C_DATE_RE (pattern text, key tuples and tz graph '
-        'regenerated from the source each run)',
+        'regenerated from the source each run), get_html_metadata, the Info block of generate_pdf and '
+        'generate_rdf_metadata (key tables regenerated from the source), write_pdf_attachment / add_annotations / the '
+        'EmbeddedFiles block (fetched bytes, urlsplit/unquote/basename, mimetypes, md5 supplied by the harness), '
+        'pydyf.String.data with a reader of PDF string objects (ISO 32000-1 7.3.4, 7.9.2.2)',
         'Python `re` (the matcher is compared with it on generated strings), pydyf object numbering and serialisation',
     )
     assumptions = (
@@ -523,7 +657,51 @@ class C18(PropCheck):
         self.sec_matrix(run)
         self.sec_gather(run)
         self.sec_dates(run)
+        self.sec_pdf_strings(run)
+        self.sec_attachments(run)
+        self.sec_metadata(run)
         D.document_sections(self, run)
+        self.report_branches(run)
+
+    EXPECTED_BRANCHES = {
+        'bookmark-tree-direct': ['adjust-append-0', 'adjust-append-skip', 'adjust-pop0', 'adjust-pop1', 'adjust-pop2',
+                                 'adjust-pop3', 'adjust-re-add', 'adjust-exact', 'pop-on-empty', 'assert-depth==len',
+                                 'assert-depth>=1', 'err:IndexError', 'err:AssertionError@depth==len',
+                                 'err:AssertionError@depth>=1', 'ok', 'pages1', 'pages4'],
+        'outlines-direct': ['closed', 'closed-with-children', 'state-other', 'page-negative', 'page-out-of-range',
+                            'parent', 'top', 'empty', 'err', 'depth6'],
+        'resolve-links-direct': ['duplicate', 'dropped', 'pages0'],
+        'rectangle-aabb': ['none', 'identity', 'axis', 'general', 'matmul', 'tpoint'],
+        'gather-anchors-direct': ['transform', 'transform-inline-ignored', 'link', 'link-on-text/line', 'attachment',
+                                  'anchor', 'anchor-duplicate', 'bookmark'],
+        'w3c-dates': ['nomatch', 'len6', 'len8', 'len10', 'len17', 'len22', 'tz-neg-zero'],
+        'pdf-strings': ['enc-literal', 'enc-utf16', 'enc-error', 'enc-escape', 'enc-cr', 'enc-astral', 'dec-written',
+                        'lit-octal3', 'lit-octal12', 'lit-escape-letter', 'lit-continuation', 'lit-raw-cr', 'lit-nested',
+                        'lit-unknown-escape', 'hex-odd', 'hex-ws', 'hex-bom', 'hex-invalid', 'dec-unterminated',
+                        'dec-undecodable', 'dec-text'],
+        'attachments-direct': ['watt-failed', 'watt-name', 'watt-url-basename', 'watt-default-name', 'watt-string',
+                               'watt-url', 'watt-url-missing', 'annots-reused-url', 'annots-failing-url',
+                               'annots-other-link-types'],
+        'metadata-direct': ['meta-title', 'meta-author', 'meta-description', 'meta-keywords', 'meta-generator',
+                            'meta-dcterms.created', 'meta-dcterms.modified', 'meta-other', 'rdf-a1', 'rdf-ua1'],
+        'doc-one-per-element': ['split', 'nosplit', 'fragments-interleaved-with-other-bookmarks', 'pseudo-element'],
+        'doc-pdf-links': ['duplicate-across-pages', 'links', 'anchors'],
+        'doc-attachments': ['link-level', 'link-rel-attachment', 'option', 'failing', 'missing-href'],
+        'doc-link-elements': ['internal', 'external', 'attachment'],
+    }
+
+    def report_branches(self, run):
+        """Generator distribution: the branch tags every section must reach in each run, and those it missed."""
+        missing = {}
+        for sec in run.sections:
+            want = self.EXPECTED_BRANCHES.get(sec.name, [])
+            never = [t for t in want if not sec.tags.get(t)]
+            if never:
+                missing[sec.name] = never
+        run.extra['branches_expected'] = sum(len(v) for v in self.EXPECTED_BRANCHES.values())
+        run.extra['branches_never_hit'] = missing
+        if missing:
+            run.notes.append(f'branches never hit in this run: {missing}')
 
     def sec_bookmarks(self, run):
         rng = run.rng
@@ -532,7 +710,7 @@ class C18(PropCheck):
             'make_page_bookmark_tree called page after page on stub pages (0..80 bookmarks split anyhow over pages, '
             'page matrices, reachable and unreachable initial states); non-trivial = at least 3 bookmarks with two '
             'different levels')
-        for i in range(run.n(2500, 40000)):
+        for i in range(run.n(1800, 40000)):
             adversarial = i % 5 == 4
             n = rng.choice([0, 1, 2, 3, 5, 8, 13, 30, 80]) if i % 7 else rng.randint(0, 80)
             bookmarks = gen_bookmarks(rng, n, adversarial)
@@ -543,8 +721,8 @@ class C18(PropCheck):
                      for k, chunk in enumerate(chunks)]
             out = G.outcome(lambda: run_real_pbt(init, pages))
             levels = [b[0] for b in bookmarks]
-            tags = level_tags(levels, init[1]) + [f'pages{min(len(pages), 4)}', 'adv' if adversarial else 'valid',
-                                                 out.split('@')[0] if out.startswith('err:') else 'ok']
+            tags = level_tags(levels, init[1]) + stack_tags(levels, init) + [
+                f'pages{min(len(pages), 4)}', 'adv' if adversarial else 'valid', out if out.startswith('err:') else 'ok']
             sec.add(pbt_line(init, pages), out, meta={'init': init, 'pages': pages, 'kind': 'pbt'},
                     nontrivial=n >= 3 and len(set(levels)) >= 2, tags=tags)
 
@@ -592,7 +770,13 @@ class C18(PropCheck):
                                      'n_pages': n_pages, 'gaps': gaps},
                     nontrivial=size >= 4 and depth >= 2,
                     tags=[f'depth{min(depth, 6)}', 'parent' if with_parent else 'top',
-                          'err' if out.startswith('err:') else 'ok', 'empty' if not forest else 'nonempty'])
+                          'err' if out.startswith('err:') else 'ok', 'empty' if not forest else 'nonempty'] +
+                    [t for t, c in (('closed', any(n[3] == 'closed' for n in _walk(forest))),
+                                    ('closed-with-children', any(n[3] == 'closed' and n[2] for n in _walk(forest))),
+                                    ('state-other', any(n[3] not in ('open', 'closed') for n in _walk(forest))),
+                                    ('page-negative', any(n[1][0] < 0 for n in _walk(forest))),
+                                    ('page-out-of-range', any(n[1][0] >= n_pages or n[1][0] < -n_pages
+                                                              for n in _walk(forest)))) if c])
 
     def sec_resolve(self, run):
         rng = run.rng
@@ -647,7 +831,7 @@ class C18(PropCheck):
             'gather_anchors on trees of real boxes (Block/Inline/Line/Text, dict styles, Fraction geometry, '
             'scale/translate/matrix transforms, duplicate anchors, links on text boxes, attachments); non-trivial = '
             'a transformed box with a link, bookmark or anchor below it')
-        for _ in range(run.n(1500, 30000)):
+        for _ in range(run.n(1000, 30000)):
             names = rng.sample(['a', 'b', 'c', 'x y'], rng.randint(1, 4))
             spec = gen_gbox(rng, 0, names)
             real = make_real_gbox(spec)
@@ -686,6 +870,184 @@ class C18(PropCheck):
                     tags=[fmt, 'tz-neg-zero' if fields and fields[6] not in (None, 'Z') and fields[6][0] == '-'
                           and fields[6][1] == 0 else 'other'])
 
+    def sec_pdf_strings(self, run):
+        import pydyf
+        from harness import c18_pdf
+        rng = run.rng
+        sec = run.section(
+            'pdf-strings',
+            'pydyf.String(s).data for ASCII / Unicode / astral / control / lone-surrogate strings against the model '
+            'encoder, and the harness PDF string reader against the proved Lean reader on those bytes and on '
+            'adversarial literal / hexadecimal strings (escapes, octal, nested parentheses, end-of-line forms, odd '
+            'hex digits); non-trivial = needs escaping or UTF-16')
+        alphabets = ['abc XYZ 019', '()\\', '()\\ab', '\n\t\r\x0c\x08', 'é中Ω\xa0', '😀𝒳\U0010ffff', '\x18\x1f\x7f\x00',
+                     '\ud800\udfff']
+        for i in range(run.n(1500, 30000)):
+            chosen = rng.sample(alphabets[:7], rng.randint(1, 3)) + (['\ud800\udfff'] if rng.random() < 0.03 else [])
+            pool = ''.join(chosen)
+            string = ''.join(rng.choice(pool) for _ in range(rng.choice([0, 1, 2, 5, 12, 40])))
+
+            def enc():
+                try:
+                    return sx.dumps(list(pydyf.String(string).data))
+                except UnicodeEncodeError:
+                    return 'err:ValueError'
+            out = G.outcome(enc)
+            kind = ('error' if out.startswith('err') else 'literal' if string.isascii() else 'utf16')
+            sec.add(sx.line('pdfenc', G.cps(string)), out, meta={'kind': 'pdfenc', 'string': string},
+                    nontrivial=not string.isascii() or any(c in '()\\' for c in string),
+                    tags=['enc-' + kind] + [t for t, c in (('enc-escape', any(ch in '()\\' for ch in string)),
+                                                           ('enc-cr', '\r' in string and string.isascii()),
+                                                           ('enc-astral', any(ord(ch) > 0xffff for ch in string))) if c])
+            if not out.startswith('err'):
+                data = bytes(pydyf.String(string).data)
+                sec.add(sx.line('pdfdec', list(data)), _py_read_string(c18_pdf, data),
+                        meta={'kind': 'pdfdec', 'bytes': list(data), 'string': string}, tags=['dec-written'])
+        pieces = [b'a', b'(', b')', b'\\', b'\\n', b'\\r', b'\\(', b'\\)', b'\\\\', b'\\101', b'\\7', b'\\12x', b'\\777', b'\r',
+                  b'\n', b'\r\n', b'\\\r\n', b'\\\n', b'\\\r', b'\\q', b' ', b'8', b'\x18', b'\x7f', b'\xe9', b'\xfe\xff', b'\x00A']
+        hex_pieces = [b'0', b'a', b'F', b'fe', b'ff', b'FEFF', b'00', b'41', b'd83d', b'de00', b'D800', b' ', b'\n', b'g',
+                      b'9']
+        for i in range(run.n(1500, 30000)):
+            if i % 2:
+                body = b''.join(rng.choice(pieces) for _ in range(rng.randint(0, 10)))
+                data = b'(' + body + rng.choice([b')', b')', b')', b''])
+            else:
+                body = b''.join(rng.choice(hex_pieces) for _ in range(rng.randint(0, 10)))
+                data = b'<' + body + rng.choice([b'>', b'>', b'>', b''])
+            data += rng.choice([b'', b'', b' /Next', b')'])
+            out = _py_read_string(c18_pdf, data)
+            import re as _re
+            if i % 2:
+                dtags = ['dec-literal'] + [t for t, pat in (
+                    ('lit-octal3', rb'\\\\[0-7]{3}'), ('lit-octal12', rb'\\\\[0-7]{1,2}(?![0-7])'), ('lit-escape-letter', rb'\\\\[nrtbf]'),
+                    ('lit-continuation', rb'\\\\[\r\n]'), ('lit-raw-cr', rb'(?<!\\\\)\r'), ('lit-nested', rb'(?<!\\\\)\('),
+                    ('lit-unknown-escape', rb'\\\\q')) if _re.search(pat, body)]
+            else:
+                dtags = ['dec-hex'] + [t for t, c in (('hex-odd', len(_re.sub(rb'\s', b'', body)) % 2 == 1),
+                                                      ('hex-ws', b' ' in body or b'\n' in body),
+                                                      ('hex-bom', body.lower().startswith(b'feff')),
+                                                      ('hex-invalid', b'g' in body)) if c]
+            dtags.append('dec-unterminated' if out == 'unterminated' else 'dec-undecodable' if 'undecodable' in out
+                         else 'dec-text')
+            sec.add(sx.line('pdfdec', list(data)), out, meta={'kind': 'pdfdec', 'bytes': list(data)},
+                    nontrivial=len(body) >= 2, tags=dtags)
+
+    def sec_metadata(self, run):
+        from xml.etree import ElementTree
+        from weasyprint import __version__
+        from weasyprint.document import DocumentMetadata
+        from weasyprint.html import get_html_metadata
+        from weasyprint.pdf.metadata import NS, generate_rdf_metadata
+        rng = run.rng
+        sec = run.section(
+            'metadata-direct',
+            'get_html_metadata on parsed documents (titles, meta elements in any case / order / repetition, keywords '
+            'lists, valid and invalid dates, lang) and generate_rdf_metadata (the XMP packet of PDF/A, PDF/UA) on its '
+            'result, parsed back with ElementTree; non-trivial = at least two head elements')
+        prefixes = {uri: prefix for prefix, uri in NS.items()}
+
+        def qname(tag):
+            uri, _, local = tag[1:].partition('}')
+            return f'{prefixes[uri]}:{local}'
+        for _ in range(run.n(400, 8000)):
+            head = D.gen_head(rng, False)
+            if rng.random() < 0.5:
+                head = [el for el in head if '\x0c' not in ''.join(el[1:])]   # form feed is not XML
+            lang = rng.choice([None, None, 'fr', 'en-GB', ''])
+            html = D.doc_html({'head': head, 'lang': lang, 'blocks': [], 'width': 100, 'height': 100, 'margin': 0,
+                               'attach_head': D.gen_attach_head(rng)})
+            head_wire = [['title', G.cps(el[1])] if el[0] == 'title' else ['meta', G.cps(el[1]), G.cps(el[2])]
+                         for el in head]
+            lang_wire = None if lang is None else G.cps(lang)
+
+            def opt(v):
+                return None if v is None else G.cps(v)
+
+            def real_meta():
+                meta = get_html_metadata(docs.html(html))
+                return meta, sx.line(opt(meta['title']), opt(meta['description']), opt(meta['generator']),
+                                     [G.cps(k) for k in meta['keywords']], [G.cps(a) for a in meta['authors']],
+                                     opt(meta['created']), opt(meta['modified']), opt(meta['lang']))
+            got = G.outcome(real_meta)
+            out = got if isinstance(got, str) else got[1]
+            names = sorted({el[1].lower() if el[0] == 'meta' else 'title' for el in head})
+            sec.add(sx.line('meta', lang_wire, head_wire), out, meta={'kind': 'meta', 'html': html, 'head': head},
+                    nontrivial=len(head) >= 2, tags=['meta-' + n for n in names])
+            if isinstance(got, str) or any(c in ''.join(''.join(el[1:]) for el in head) for c in '\x0c\x0b\r'):
+                continue
+            variant, version, conformance = rng.choice([('a', 1, 'B'), ('a', 3, 'U'), ('a', 4, None), ('ua', 1, None),
+                                                        ('a', 2, '')])
+
+            def real_rdf():
+                attachments = got[0].pop('attachments')
+                metadata = DocumentMetadata(**got[0])
+                got[0]['attachments'] = attachments
+                root = ElementTree.fromstring(generate_rdf_metadata(metadata, variant, version, conformance))
+                fields = []
+                for description in root:
+                    for key, value in description.attrib.items():
+                        if qname(key) != 'rdf:about':
+                            fields.append(['@' + qname(key), G.cps(value)])
+                    for child in description:
+                        items = [li.text or '' for li in child.iter(f'{{{NS["rdf"]}}}li')]
+                        fields.append([qname(child.tag)] + [G.cps(t) for t in (items or [child.text or ''])])
+                return sx.dumps(fields)
+            sec.add(sx.line('rdf', variant, str(version), None if conformance is None else esc(conformance),
+                            G.cps(f'WeasyPrint {__version__}'), lang_wire, head_wire),
+                    G.outcome(real_rdf), meta={'kind': 'rdf', 'html': html, 'head': head}, nontrivial=len(head) >= 2,
+                    tags=[f'rdf-{variant}{version}'])
+
+    def sec_attachments(self, run):
+        import pydyf
+        from weasyprint import Attachment
+        from weasyprint.pdf.anchors import add_annotations, write_pdf_attachment
+        rng = run.rng
+        sec = run.section(
+            'attachments-direct',
+            'write_pdf_attachment on real Attachment objects (string / URL sources through a stub fetcher: content, '
+            'redirects, failures; names, descriptions) and add_annotations over several pages sharing annot_files, on a '
+            'real pydyf.PDF(); file specification, embedded stream and annotation objects read back; non-trivial = a '
+            'URL used twice or a failing URL')
+        for _ in range(run.n(600, 12000)):
+            urls = A.gen_urls(rng)
+            fetcher, table = A.stub_fetcher(urls)
+            # one write_pdf_attachment call
+            case = A.gen_attachment(rng, urls)
+            pdf = pydyf.PDF()
+            for _k in range(rng.randint(0, 3)):
+                pdf.add_object(pydyf.Dictionary({'Type': '/Filler'}))
+            start = len(pdf.objects)
+            attachment = A.real_attachment(Attachment, case, fetcher)
+
+            def call():
+                spec = write_pdf_attachment(pdf, attachment, compress=False)
+                return A.spec_wire(pdf, spec, case) + ' ' + sx.atom(len(pdf.objects))
+            out = G.outcome(call)
+            att = A.att_model(case, table)
+            guesses = A.guesses_for([att])
+            sec.add(sx.line('watt', guesses, start, A.att_wire(att)), out,
+                    meta={'kind': 'watt', 'case': case, 'urls': urls, 'start': start},
+                    nontrivial=att['size'] is not None,
+                    tags=['watt-' + ('failed' if att['size'] is None else 'name' if att['name'] else
+                                     'url-basename' if att['urlBase'] is not None else 'default-name'),
+                          'watt-' + case['source']])
+            # add_annotations over pages
+            pages = A.gen_att_pages(rng, urls)
+            pdf = pydyf.PDF()
+            start = len(pdf.objects)
+            out = G.outcome(lambda: A.run_real_annotations(pydyf, add_annotations, pdf, pages, fetcher))
+            atts = {u: A.att_model({'source': 'url', 'url': u, 'name': None, 'description': None}, table) for u in urls}
+            targets = [l[1] for _, _, links in pages for l in links if l[0] == 'attachment']
+            sec.add(sx.line('annots', A.guesses_for(atts.values()), [[esc(u), A.att_wire(a)] for u, a in atts.items()],
+                            start, [[scale, height, [[esc(t)] + list(rect) for k, t, rect in links if k == 'attachment']]
+                                    for scale, height, links in pages]),
+                    out, meta={'kind': 'annots', 'pages': pages, 'urls': urls},
+                    nontrivial=len(set(targets)) < len(targets) or any(t not in atts or atts[t]['size'] is None for t in targets),
+                    tags=[t for t, c in (('annots-reused-url', len(set(targets)) < len(targets)),
+                                         ('annots-failing-url', any(t not in atts or atts[t]['size'] is None for t in targets)),
+                                         ('annots-other-link-types', any(l[0] != 'attachment' for _, _, ls in pages
+                                                                         for l in ls))) if c])
+
     # -------------------------------------------------------------- judge / search / replay
     def judge(self, d):
         meta = d.get('meta') or {}
@@ -721,9 +1083,13 @@ class C18(PropCheck):
         if kind == 'resolve':
             if impl.startswith('err:'):
                 return f'resolve_links raised {impl}'
-            parsed = sx.loads_line(impl)[0]
+            parsed, logged = sx.loads_line(impl)
             out = [([(k, t, int(i)) for k, t, i in links], [(n, F(x), F(y)) for n, x, y in anchors])
                    for links, anchors in parsed]
+            names = {esc(n) for anchors, _ in meta['pages'] for n, _, _ in anchors}
+            missing = [esc(t) for _, links in meta['pages'] for k, t, _ in links if k == 'internal' and esc(t) not in names]
+            if logged != missing:
+                return f'errors logged for {logged}; the links to missing anchors are {missing}'
             pages = [([(esc(n), x, y) for n, x, y in anchors], [(esc(k), esc(t), i) for k, t, i in links])
                      for anchors, links in meta['pages']]
             return judge_resolved(pages, out)
@@ -731,6 +1097,12 @@ class C18(PropCheck):
             return _judge_aabb(meta, impl)
         if kind == 'gather':
             return judge_gather(meta['spec'], impl)
+        if kind == 'watt':
+            return judge_watt(meta, impl)
+        if kind == 'annots':
+            return judge_annots(meta, impl)
+        if kind in ('meta', 'rdf'):
+            return judge_metadata(meta, impl)
         if kind == 'w3c':
             return judge_date(meta['string'], impl)
         if kind in D.DOC_KINDS:
@@ -799,7 +1171,9 @@ class C18(PropCheck):
         return found + D.search(self, run, failures)
 
     def finding_replays(self):
-        return {'dests-not-byte-sorted': D.replay_dests_not_byte_sorted}
+        return {'dests-not-byte-sorted': D.replay_dests_not_byte_sorted,
+                'pdf-string-cr': D.replay_pdf_string_cr,
+                'embedded-files-not-sorted': D.replay_embedded_files_not_sorted}
 
     def replay(self, data):
         inp = data.get('input', {})
@@ -843,9 +1217,40 @@ class C18(PropCheck):
         if kind == 'gather':
             spec = meta['spec']
             return judge_gather(spec, G.outcome(lambda: run_real_gather(make_real_gbox(spec))))
+        if kind == 'watt':
+            import pydyf
+            from weasyprint import Attachment
+            from weasyprint.pdf.anchors import write_pdf_attachment
+            fetcher, _ = A.stub_fetcher(meta['urls'])
+            pdf = pydyf.PDF()
+            while len(pdf.objects) < meta['start']:
+                pdf.add_object(pydyf.Dictionary({'Type': '/Filler'}))
+            attachment = A.real_attachment(Attachment, meta['case'], fetcher)
+            out = G.outcome(lambda: A.spec_wire(pdf, write_pdf_attachment(pdf, attachment, compress=False),
+                                                meta['case']) + ' ' + sx.atom(len(pdf.objects)))
+            return judge_watt(meta, out)
+        if kind == 'annots':
+            import pydyf
+            from weasyprint.pdf.anchors import add_annotations
+            fetcher, _ = A.stub_fetcher(meta['urls'])
+            pages = [(F(p[0]), F(p[1]), [(l[0], l[1], tuple(F(v) for v in l[2])) for l in p[2]]) for p in meta['pages']]
+            out = G.outcome(lambda: A.run_real_annotations(pydyf, add_annotations, pydyf.PDF(), pages, fetcher))
+            return judge_annots(dict(meta, pages=pages), out)
         if kind in D.DOC_KINDS:
             return D.replay_meta(meta)
         return None
+
+
+def _py_read_string(c18_pdf, data):
+    """The harness reader on a string object at the head of `data`, in the output form of `pdfdec`."""
+    got = (c18_pdf.read_literal(data, 1) if data[:1] == b'(' else c18_pdf.read_hex(data, 1) if data[:1] == b'<'
+           else None)
+    if got is None:
+        return 'unterminated'
+    raw, pos = got
+    text = c18_pdf.text_of(raw)
+    return (sx.dumps(list(raw)) + ' ' + ('undecodable' if text is None else sx.dumps(G.cps(text))) + ' ' +
+            sx.atom(len(data) - pos))
 
 
 def _revive(x):
@@ -926,7 +1331,11 @@ MANIFEST = {
                  'graph regenerated from the source each run); executable correspondence with the real functions '
                  '(direct calls with stub pages, real pydyf objects, real boxes) and with rendered documents '
                  '(Page.bookmarks/links/anchors, make_bookmark_tree, /Outlines /Dests /Annots /Info of the PDF)',
-    'text': 'Unbounded theorems: the bookmark builder never fails on levels >= 1 however the list is split over pages, '
+    'text': 'Unbounded theorems: PDF strings written by pydyf read back unchanged (UTF-16 for any Unicode, literal for '
+            'plain ASCII); gather_anchors over a page is a fold over its boxes in document order (one link entry per '
+            'link-carrying box fragment, first box wins for an id); make_bookmark_tree composed with add_outlines '
+            'never fails and lists every bookmark once in order; attachments are embedded unchanged, in order, one '
+            'file per distinct URL, failures skipped; every link is either emitted or reported. Also: the bookmark builder never fails on levels >= 1 however the list is split over pages, '
             'the pre-order of its tree is the bookmark list, depths follow the nearest-smaller-level rule and the '
             'result does not depend on the page split; add_outlines links siblings both ways, sets First/Last/Parent '
             'and Count = visible descendants; resolve_links emits no dangling internal link and lists every anchor '
